@@ -324,19 +324,41 @@ class Check(FormulaCheck):
             nl = rnd.randint(0, 4)
             script = [[rnd.choice(pool) for _ in range(rnd.randint(0, 3))] for _ in range(nl)]
             calls = []
+            depth = [0]
+            reenter = rnd.random() < 0.3          # a listener that evaluates another formula on the same parser while its event is delivered
+            nested_f = rnd.choice(['Q7+1', 'foo&"x"', 'FA(2)', 'Q7:R9', '1+', 'SUM(Q7,foo)'])
             for li, vals in enumerate(script):
                 def listener(*a, _vals=vals, _li=li):
+                    if depth[0]:
+                        return            # events of the nested evaluation: observe only
                     calls.append(_li)
-                    for v in _vals:
+                    for k, v in enumerate(_vals):
                         a[-1](v)
+                        if reenter and k == 0:
+                            depth[0] += 1
+                            try:
+                                p.parse(nested_f)
+                            finally:
+                                depth[0] -= 1
+                    if reenter and not _vals:
+                        depth[0] += 1
+                        try:
+                            p.parse(nested_f)
+                        finally:
+                            depth[0] -= 1
                 p.on(evname, listener)
+            if reenter:
+                # the nested formula's own references also raise events on this parser: give them values through separate listeners
+                for ev2 in ('callCellValue', 'callRangeValue', 'callVariable', 'callFunction'):
+                    p.on(ev2, lambda *a: a[-1]('nested-value') if depth[0] else None)
+                rec.cov('reentrant_listener', kind)
             f = {'cell': rand_cell(rnd)[0], 'range': rand_cell(rnd)[0] + ':' + rand_cell(rnd)[0], 'var': 'foo', 'fn': 'FA(1)'}[kind]
             r = self.parse(f)
             flat = [v for vals in script for v in vals if v is not None]
             exp = flat[-1] if flat else base
             ok = r['error'] is None and (r['result'] is exp or canon(r['result']) == canon(exp))
             falsy = bool(flat) and not flat[-1] and flat[-1] is not None
-            self.expect('C10/setter:%s%s' % (kind, ':falsy-value-ignored' if (falsy and not ok) else (':no-listener-not-blank' if not nl and not ok else '')), ok,
+            self.expect('C10/setter:%s%s' % (kind, ':reentrant-listener' if (reenter and nl and not ok) else (':falsy-value-ignored' if (falsy and not ok) else (':no-listener-not-blank' if not nl and not ok else ''))), ok,
                         formula=f, script=script, record=r, expected=exp)
             self.expect('C10/events:%s-listeners-not-each-called-once' % kind, calls == list(range(nl)), formula=f, calls=calls, listeners=nl)
             rec.nt((f, repr(script)))
